@@ -19,6 +19,17 @@ impl ArenaTok {
     ensures r == *self, final(st).refs@ == old(st).refs@ + 1, final(st).log == old(st).log, final(st).drops == old(st).drops,
   { unimplemented!() }
   pub fn raw_ptr(&self) -> (r: *const u8) ensures r == self.ptr { self.ptr }
+  // read-only accessors of the Allocator trait: results are unconstrained (a handle must behave for any value)
+  #[verifier::external_body] pub fn refs(&self) -> usize { unimplemented!() }
+  #[verifier::external_body] pub fn allocated(&self) -> usize { unimplemented!() }
+  #[verifier::external_body] pub fn capacity(&self) -> usize { unimplemented!() }
+  #[verifier::external_body] pub fn remaining(&self) -> usize { unimplemented!() }
+  #[verifier::external_body] pub fn discarded(&self) -> u32 { unimplemented!() }
+  #[verifier::external_body] pub fn data_offset(&self) -> usize { unimplemented!() }
+  #[verifier::external_body] pub fn read_only(&self) -> bool { unimplemented!() }
+  #[verifier::external_body] pub fn is_ondisk(&self) -> bool { unimplemented!() }
+  #[verifier::external_body] pub fn is_inmemory(&self) -> bool { unimplemented!() }
+  #[verifier::external_body] pub fn minimum_segment_size(&self) -> u32 { unimplemented!() }
 }
 #[derive(Copy, Clone, PartialEq, Eq)]
 pub struct NullTok {}
@@ -42,14 +53,14 @@ impl BytesMut {
   ensures r.arena == Either::<ArenaTok, NullTok>::Right(NullTok {}), r.len == 0, !r.detach, r.allocated.memory_size == 0 && r.allocated.ptr_size == 0 && r.allocated.memory_offset == 0, // [C13 C03]
 //@@end
 
-//@@fn file=bytes.rs scope="impl<A: Allocator> Drop for BytesMut<A> {" name=drop rename=drop_bytes_mut xlate=plain st=mut props=C13
+//@@fn file=bytes.rs scope="impl<A: Allocator> Drop for BytesMut<A> {" name=drop rename=drop_bytes_mut xlate=plain st=mut props=C13,C01
 //@subst /Either::Left\(ref mut arena\)/ => Either::Left(arena)
 //@subst /arena\.dealloc\(/ => arena.dealloc(st, 
 //@contract
   ensures
     *final(self) == *old(self),
     final(st).refs == old(st).refs && final(st).drops == old(st).drops,
-    final(st).log@ == (if old(self).arena is Left && !old(self).detach { old(st).log@.push((old(self).allocated.memory_offset, old(self).allocated.memory_size)) } else { old(st).log@ }), // [C13]
+    final(st).log@ == (if old(self).arena is Left && !old(self).detach { old(st).log@.push((old(self).allocated.memory_offset, old(self).allocated.memory_size)) } else { old(st).log@ }), // [C13 C01]
 //@@end
 }
 
@@ -79,13 +90,13 @@ impl BytesRefMut {
         && final(st).refs@ == old(st).refs@ + 1, // [C13]
 //@@end
 
-//@@fn file=bytes.rs scope="impl<A: Allocator> Drop for BytesRefMut<'_, A> {" name=drop rename=drop_bytes_ref xlate=plain st=mut props=C13
+//@@fn file=bytes.rs scope="impl<A: Allocator> Drop for BytesRefMut<'_, A> {" name=drop rename=drop_bytes_ref xlate=plain st=mut props=C13,C01
 //@subst /self\s*\.arena\s*\.dealloc\(/ => self.arena.dealloc(st, 
 //@contract
   ensures
     *final(self) == *old(self),
     final(st).refs == old(st).refs && final(st).drops == old(st).drops,
-    final(st).log@ == (if !old(self).detach { old(st).log@.push((old(self).allocated.memory_offset, old(self).allocated.memory_size)) } else { old(st).log@ }), // [C13]
+    final(st).log@ == (if !old(self).detach { old(st).log@.push((old(self).allocated.memory_offset, old(self).allocated.memory_size)) } else { old(st).log@ }), // [C13 C01]
 //@@end
 
 //@@fn file=bytes.rs scope="impl<A: Allocator> crate::Buffer for BytesRefMut<'_, A> {" name=detach rename=detach_ref xlate=plain props=C13
@@ -143,7 +154,7 @@ pub open spec fn obj_drop_count<T>(kind: Kind, detached: bool, drops: int) -> in
 }
 
 impl RefMut {
-//@@fn file=object.rs scope="impl<T, A: Allocator> Drop for RefMut<'_, T, A> {" name=drop rename=drop_ref_mut xlate=plain st=mut props=C13
+//@@fn file=object.rs scope="impl<T, A: Allocator> Drop for RefMut<'_, T, A> {" name=drop rename=drop_ref_mut xlate=plain st=mut props=C13,C01
 //@subst /fn drop\(/ => fn drop<T>(
 //@subst /match &mut self\.kind/ => match self.kind
 //@subst /core::mem::needs_drop::<T>\(\)/ => needs_drop_shim::<T>()
@@ -152,7 +163,7 @@ impl RefMut {
 //@contract
   ensures
     *final(self) == *old(self), final(st).refs == old(st).refs,
-    final(st).log@ == obj_drop_log(old(self).kind, old(self).detached, old(self).allocated, old(st).log@), // [C13]
+    final(st).log@ == obj_drop_log(old(self).kind, old(self).detached, old(self).allocated, old(st).log@), // [C13 C01]
     final(st).drops@ == obj_drop_count::<T>(old(self).kind, old(self).detached, old(st).drops@), // [C13]
 //@@end
 
@@ -163,7 +174,7 @@ impl RefMut {
 }
 
 impl Owned {
-//@@fn file=object.rs scope="impl<T, A: Allocator> Drop for Owned<T, A> {" name=drop rename=drop_owned xlate=plain st=mut props=C13
+//@@fn file=object.rs scope="impl<T, A: Allocator> Drop for Owned<T, A> {" name=drop rename=drop_owned xlate=plain st=mut props=C13,C01
 //@subst /fn drop\(/ => fn drop<T>(
 //@subst /match &mut self\.kind/ => match self.kind
 //@subst /core::mem::needs_drop::<T>\(\)/ => needs_drop_shim::<T>()
@@ -172,7 +183,7 @@ impl Owned {
 //@contract
   ensures
     *final(self) == *old(self), final(st).refs == old(st).refs,
-    final(st).log@ == obj_drop_log(old(self).kind, old(self).detached, old(self).allocated, old(st).log@), // [C13]
+    final(st).log@ == obj_drop_log(old(self).kind, old(self).detached, old(self).allocated, old(st).log@), // [C13 C01]
     final(st).drops@ == obj_drop_count::<T>(old(self).kind, old(self).detached, old(st).drops@), // [C13]
 //@@end
 
